@@ -56,6 +56,31 @@ def probe_produced_forms(ctx):
     finally: shutil.rmtree(d, ignore_errors=True)
     return n
 
+def probe_restat_values(ctx):
+    """`restat = V` in a dyndep file means what `restat = V` means in the manifest (any non-empty value is true): for each V the dyndep variant
+    and the manifest variant must re-run the same commands after an input was touched without a change of content"""
+    import os, subprocess, tempfile, shutil, time
+    import vlib
+    ninja = os.path.join(vlib.build_impl('plain'), 'ninja'); n = 0
+    d = tempfile.mkdtemp(prefix='verif-c11-', dir='/dev/shm')
+    try:
+        for v in ('1', '0', 'true', 'false', 'no', 'x y'):
+            ran = {}
+            for variant in ('dyndep', 'manifest'):
+                for f in os.listdir(d): os.unlink(os.path.join(d, f))
+                open(d + '/build.ninja', 'w').write('rule wic\n  command = cat $in > $out.tmp && (cmp -s $out.tmp $out || cp $out.tmp $out) && echo $out >> ran.log\nrule cat\n  command = cat $in > $out && echo $out >> ran.log\n' +
+                                                    ('build a: wic src || dd\n  dyndep = dd\n' if variant == 'dyndep' else 'build a: wic src || dd\n  restat = %s\n' % v) + 'build b: cat a\n')
+                open(d + '/dd', 'w').write('ninja_dyndep_version = 1\nbuild a: dyndep\n  restat = %s\n' % v); open(d + '/src', 'w').write('same\n')
+                p1 = subprocess.run([ninja, '-C', d, 'b'], stdout=subprocess.PIPE, stderr=subprocess.STDOUT, timeout=60); n += 1
+                time.sleep(0.06); os.utime(d + '/src'); open(d + '/ran.log', 'w').close()
+                p2 = subprocess.run([ninja, '-C', d, 'b'], stdout=subprocess.PIPE, stderr=subprocess.STDOUT, timeout=60); n += 1
+                ran[variant] = (p1.returncode, p2.returncode, open(d + '/ran.log').read().split())
+            if ran['dyndep'] != ran['manifest']:
+                ctx.violation('dyndep-restat-value', 'real binary: a = write-if-changed command, b reads a; build b, touch src (same content), build b again; `restat = %s` once in the dyndep file of a, once in the manifest\n' % v,
+                              '`restat = %s`: with the dyndep file the second build ran %s (exit %s), with the binding in the manifest %s (exit %s)' % (v, ran['dyndep'][2], ran['dyndep'][:2], ran['manifest'][2], ran['manifest'][:2]))
+    finally: shutil.rmtree(d, ignore_errors=True)
+    return n
+
 def run(ctx):
     rnd = random.Random(ctx.seed * 11 + 3)
     n = 700 if ctx.quick() else 6000
@@ -72,7 +97,7 @@ def run(ctx):
             pairs.append((a, a.transformed('C11_nr%d_inl' % i, engine.inline_dyndep)))
         inv = [h for h in (ec.gen_dyndep_invalid(rnd, 'C11_i%d' % i) for i in range(2 * n)) if h]
     known = {k.get('id') for k in ctx.known_list if k.get('property') == 'C11'}
-    if not ctx.replay: probe_consumer_scanned_early(ctx, known); probe_produced_forms(ctx)
+    if not ctx.replay: probe_consumer_scanned_early(ctx, known); probe_produced_forms(ctx); probe_restat_values(ctx)
     hists = [x for p in pairs for x in p] + inv
     rc, tr, err, out = ec.run_hists(hists)
     for hh, crc, cerr in getattr(ec.run_hists, 'crashes', []):
